@@ -57,6 +57,9 @@ pub mod rt {
         pub chosen: usize,
         /// the thread that reached the point was itself still enabled (switching away = preemption)
         pub running_enabled: bool,
+        /// virtual time (ns) and what each enabled thread was about to do
+        pub now: u64,
+        pub wants: Vec<Want>,
     }
 
     #[derive(Debug)]
@@ -293,7 +296,9 @@ pub mod rt {
                     self.end(g);
                     return;
                 }
-                g.points.push(Point { enabled: enabled.clone(), chosen: c, running_enabled: me_enabled });
+                let wants = enabled.iter().map(|&t| if t == me { g.threads[t].want.clone() } else { g.threads[t].want.clone() }).collect();
+                let now = g.now;
+                g.points.push(Point { enabled: enabled.clone(), chosen: c, running_enabled: me_enabled, now, wants });
                 c
             };
             g.current = enabled[idx];
